@@ -10,12 +10,12 @@ PROPS = {
     'C04': ['KIND', 'SIMMAP', 'COPYALL', 'LOOPBOUND', 'TUPLEPOS', 'FORWARD', 'KEYFIELDS', 'CLIOPT', 'INSETLABEL', 'PREPASS', 'USEDSTATES', 'REFSTABLE'],
     'C05': ['SIMMAP', 'KIND', 'LOOPBOUND', 'DRAIN', 'WORKLIST', 'SIZEEQ', 'COW', 'FORWARD', 'ACCRET', 'INSETLABEL', 'COPYALL', 'USEDSTATES', 'ALPHASRC'],
     'C06': ['COMPL', 'ACDUAL', 'ALPHASRC', 'ACCRET', 'COLLECTALL', 'WORKLIST', 'SYMIDX', 'SIZEDINDEX', 'FALLOFF', 'COUNTGUARD', 'KEPTRULES', 'DRAIN'],
-    'C07': ['DISPATCH', 'ACDUAL', 'FINCHK', 'MERGE', 'PARALLEL', 'COLLECTALL', 'CACHELIFE', 'SIBLING', 'FORWARD', 'QUEUEENDS', 'CLIOPT', 'SCRATCHRESET', 'GENPRE', 'DRAIN', 'FLAGRESET', 'TUPLEPOS', 'CANON'],
+    'C07': ['DISPATCH', 'ACDUAL', 'FINCHK', 'MERGE', 'PARALLEL', 'COLLECTALL', 'CACHELIFE', 'SIBLING', 'FORWARD', 'QUEUEENDS', 'CLIOPT', 'SCRATCHRESET', 'GENPRE', 'DRAIN', 'FLAGRESET', 'TUPLEPOS', 'CANON', 'UNIONCONTRIB'],
     'C08': ['UNIONCONTRIB', 'PRODUCT', 'WORKLIST', 'DRAIN', 'INIT', 'COLLECTALL', 'ARITY', 'TUPLEPOS', 'LOADROLE', 'FORWARD', 'USEMOVE', 'UNIONTRANSL', 'ACCRET', 'SCRATCHRESET', 'NULLPARAM', 'REINDEXALL', 'BACKTRACK', 'CANON'],
-    'C09': ['DISPATCH', 'ACDUAL', 'FINCHK', 'MEMO', 'HASHEQ', 'ORDTOTAL', 'FORWARD', 'ADDRKEY', 'QUEUEENDS', 'CLIOPT', 'FLAGRESET', 'DRAIN', 'ITERINVAL', 'CONGRMATCH', 'REFSTABLE'],
-    'C10': ['UNIONCONTRIB', 'PRODUCT', 'PAIRFIELD', 'FINCHK', 'WORKLIST', 'DRAIN', 'PARAMPATH', 'COW', 'FORWARD', 'NFAOPS', 'UNIONTRANSL', 'ACCRET', 'SCRATCHRESET', 'COLLECTALL', 'NULLPARAM', 'REINDEXALL', 'ALPHASRC'],
+    'C09': ['DISPATCH', 'ACDUAL', 'FINCHK', 'MEMO', 'HASHEQ', 'ORDTOTAL', 'FORWARD', 'ADDRKEY', 'QUEUEENDS', 'CLIOPT', 'FLAGRESET', 'DRAIN', 'ITERINVAL', 'CONGRMATCH', 'REFSTABLE', 'OWNKEY'],
+    'C10': ['UNIONCONTRIB', 'PRODUCT', 'PAIRFIELD', 'FINCHK', 'WORKLIST', 'DRAIN', 'PARAMPATH', 'COW', 'FORWARD', 'NFAOPS', 'UNIONTRANSL', 'ACCRET', 'SCRATCHRESET', 'COLLECTALL', 'NULLPARAM', 'REINDEXALL', 'ALPHASRC', 'OWNKEY'],
     'C11': ['COW', 'CLEARALL', 'HASHCONS', 'CACHELIFE', 'ALPHASRC', 'DISPATCH', 'COPYALL', 'STATICSTATE'],
-    'C13': ['TEXT', 'LOADROLE', 'PARAMPATH', 'PAIRFIELD', 'FORWARD', 'SCRATCHRESET', 'NOTHROW', 'COLLECTALL', 'DRAIN', 'BACKTRACK', 'COPYALL', 'REFCNT'],
+    'C13': ['TEXT', 'LOADROLE', 'PARAMPATH', 'PAIRFIELD', 'FORWARD', 'SCRATCHRESET', 'NOTHROW', 'COLLECTALL', 'DRAIN', 'BACKTRACK', 'COPYALL', 'REFCNT', 'STATICSTATE', 'NOREGEX'],
     'C12': ['COW', 'HASHCONS', 'ITER', 'NONEMPTY', 'CLEARALL', 'PARAMPATH', 'USEDSTATES', 'COPYALL', 'ORDTOTAL'],
     'C14': ['KIND', 'COW', 'FORWARD', 'SCRATCHRESET', 'HASHCONS', 'REINDEXALL', 'ALPHASRC', 'SIZEEQ'],
     'C15': ['FINCHK', 'WORKLIST', 'DRAIN', 'KIND', 'HASHCONS', 'COW', 'FORWARD', 'COUNTGUARD', 'ACCRET', 'KEPTRULES', 'COLLECTALL', 'ALPHASRC'],
@@ -29,6 +29,7 @@ PROPS = {
 # (property, rule) -> regex on the repo-relative file: only sites in matching files are attributed to that
 # property (rule health — floors, anchors — is always judged on all sites)
 FILTER = {
+    ('C07', 'UNIONCONTRIB'): r'bdd_',   # the simulation handed to the BDD inclusion is computed on the union of the operands
     ('C01', 'DISPATCH'): r'explicit_tree_incl\.cc|aut_base\.hh',
     ('C01', 'ACDUAL'): r'explicit_tree_incl|down_tree_|tree_incl_down|antichain',
     ('C01', 'ORDTOTAL'): r'explicit_tree',
